@@ -13,8 +13,9 @@ name: llist_append
 define: U_APPEND
 src: linked_list.c
 tier: B
+backend: cadical
 unwind: 8
-bound: list length <= 4, element NULL or any key
+bound: list length <= 4, any key
 funcs: spif_linked_list_append
 */
 /*@unit
@@ -22,17 +23,49 @@ name: llist_prepend_b
 define: U_PREPEND
 src: linked_list.c
 tier: B
+backend: cadical
 unwind: 8
-bound: list length <= 4, element NULL or any key
+bound: list length <= 4, any key
 funcs: spif_linked_list_prepend
 */
 /*@unit
 name: llist_insert_at
-define: U_INSERT_AT
+define: U_INSERT_AT, U_NOT_M1, VL_MINN=1
 src: linked_list.c
 tier: B
+backend: cadical
 unwind: 8
-bound: list length <= 4; every index value from -2^31 up to len+2 (at most 2 placeholders of growth); element NULL or any key
+bound: list length 1..4; every index value from -2^31 up to len+2 (at most 2 placeholders of growth) except idx == -len-1; any key
+funcs: spif_linked_list_insert_at
+*/
+/*@unit
+name: llist_insert_at_empty_le0
+define: U_INSERT_AT, U_NOT_M1, VL_FIXN=0, U_IDX_LE0
+src: linked_list.c
+tier: B
+backend: cadical
+unwind: 8
+bound: the empty list; every index value <= 0 except -1; any key
+funcs: spif_linked_list_insert_at
+*/
+/*@unit
+name: llist_insert_at_empty_grow
+define: U_INSERT_AT, VL_FIXN=0, U_IDX_GE1
+src: linked_list.c
+tier: B
+backend: cadical
+unwind: 8
+bound: the empty list; index 1..2 (placeholders must be created); any key
+funcs: spif_linked_list_insert_at
+*/
+/*@unit
+name: llist_insert_at_m1
+define: U_INSERT_AT, U_M1
+src: linked_list.c
+tier: B
+backend: cadical
+unwind: 8
+bound: list length <= 4; idx == -len-1 (the position that normalises to exactly -1); any key
 funcs: spif_linked_list_insert_at
 */
 /*@unit
@@ -40,6 +73,7 @@ name: llist_remove_at
 define: U_REMOVE_AT
 src: linked_list.c
 tier: B
+backend: cadical
 unwind: 8
 bound: list length <= 4, all 2^32 index values
 funcs: spif_linked_list_remove_at
@@ -49,6 +83,7 @@ name: llist_get
 define: U_GET
 src: linked_list.c
 tier: B
+backend: cadical
 unwind: 8
 bound: list length <= 4, all 2^32 index values
 funcs: spif_linked_list_get
@@ -58,6 +93,7 @@ name: llist_remove
 define: U_REMOVE
 src: linked_list.c
 tier: B
+backend: cadical
 unwind: 8
 bound: list length <= 4, all key values incl. duplicates and placeholders
 funcs: spif_linked_list_remove
@@ -67,6 +103,7 @@ name: llist_index_find
 define: U_INDEX
 src: linked_list.c
 tier: B
+backend: cadical
 unwind: 8
 bound: list length <= 4, all key values incl. duplicates and placeholders
 funcs: spif_linked_list_index, spif_linked_list_find, spif_linked_list_contains
@@ -76,6 +113,7 @@ name: llist_reverse
 define: U_REVERSE, VL_MINN=1
 src: linked_list.c
 tier: B
+backend: cadical
 unwind: 8
 bound: list length 1..4
 funcs: spif_linked_list_reverse
@@ -85,6 +123,7 @@ name: llist_reverse_empty
 define: U_REVERSE, VL_FIXN=0
 src: linked_list.c
 tier: B
+backend: cadical
 unwind: 8
 bound: the empty list
 funcs: spif_linked_list_reverse
@@ -94,6 +133,7 @@ name: llist_to_array
 define: U_TO_ARRAY
 src: linked_list.c
 tier: B
+backend: cadical
 unwind: 8
 bound: list length <= 4
 funcs: spif_linked_list_to_array
@@ -103,6 +143,7 @@ name: llist_iterate
 define: U_ITERATE
 src: linked_list.c, obj.c
 tier: B
+backend: cadical
 unwind: 8
 bound: list length <= 4
 funcs: spif_linked_list_iterator, spif_linked_list_iterator_new, spif_linked_list_iterator_init, spif_linked_list_iterator_has_next, spif_linked_list_iterator_next, spif_linked_list_iterator_del
@@ -145,22 +186,34 @@ void harness(void)
     w_n = m.len; w_idx = idx;
 
 #ifdef U_APPEND
-    x = pick_obj(&k, 1);
+    x = pick_obj(&k, 0);
     b = spif_linked_list_append(self, x);
     vl_ideal_append(&m, x, k);
     __CPROVER_assert(b == TRUE, "llist append: returns TRUE");
     CHECK(self, m, "llist append");
 #endif
 #ifdef U_PREPEND
-    x = pick_obj(&k, 1);
+    x = pick_obj(&k, 0);
     b = spif_linked_list_prepend(self, x);
     vl_ideal_insert_pos(&m, 0, x, k);
     __CPROVER_assert(b == TRUE, "llist prepend: returns TRUE");
     CHECK(self, m, "llist prepend");
 #endif
 #ifdef U_INSERT_AT
-    x = pick_obj(&k, 1);
+    x = pick_obj(&k, 0);
     __CPROVER_assume(idx <= m.len + VL_GROW);
+# ifdef U_NOT_M1
+    __CPROVER_assume(idx != -m.len - 1);
+# endif
+# ifdef U_M1
+    __CPROVER_assume(idx == -m.len - 1);
+# endif
+# ifdef U_IDX_LE0
+    __CPROVER_assume(idx <= 0);
+# endif
+# ifdef U_IDX_GE1
+    __CPROVER_assume(idx >= 1);
+# endif
     {
         int ok = vl_ideal_insert_at(&m, x, k, idx);
         b = spif_linked_list_insert_at(self, x, idx);
